@@ -412,7 +412,13 @@ cell(From, To, Es0) -->
 
 numeric_argument(Ds, Num, Rest, Args0, Args) :-
         (   Ds = [*|Rest] ->
-            Args0 = [Num|Args]
+            Args0 = [Num0|Args],
+            Num is Num0, % evaluate compound expression
+            must_be(integer, Num),
+            (   Num < 0 ->
+                domain_error(not_less_than_zero, Num, format_//2)
+            ;   true
+            )
         ;   phrase(numeric_argument_(Ds, Rest), Ns),
             foldl(plus_times10, Ns, 0, Num),
             Args0 = Args
